@@ -18,6 +18,7 @@ package files
 
 import (
 	"context"
+	"errors"
 	"fmt"
 	"log"
 	"os"
@@ -107,6 +108,12 @@ func (ds *Storage) readBlobs(ctx context.Context, opts readBlobRequest) error {
 		if !isDir {
 			fi, err := stat[name].Get()
 			if err != nil {
+				if isNotExist(err) {
+					// Gone since the directory was read: a temp file of
+					// a concurrent receive that has been renamed, or a
+					// blob that has been removed.
+					continue
+				}
 				return err
 			}
 			isDir = fi.IsDir()
@@ -140,6 +147,9 @@ func (ds *Storage) readBlobs(ctx context.Context, opts readBlobRequest) error {
 
 		fi, err := stat[name].Get()
 		if err != nil {
+			if isNotExist(err) {
+				continue
+			}
 			return err
 		}
 
@@ -175,6 +185,16 @@ func (ds *Storage) EnumerateBlobs(ctx context.Context, dest chan<- blob.SizedRef
 		after:   after,
 		remain:  &limitMutable,
 	})
+}
+
+// isNotExist reports whether err, possibly wrapped in an enumerateError,
+// says that the file does not exist.
+func isNotExist(err error) bool {
+	var ee *enumerateError
+	if errors.As(err, &ee) {
+		err = ee.err
+	}
+	return os.IsNotExist(err) || errors.Is(err, os.ErrNotExist)
 }
 
 func skipDir(name string) bool {
